@@ -22,6 +22,7 @@ RULE = (
     "op the full probe panel runs on every live evaluator. distinct_nontrivial = distinct histories with >= 1 "
     "failing recompile or >= 2 evaluators. Plus 'ephemeral' histories whose source strings are built on the fly, have equal "
     "length and are dropped (and garbage-collected) right after use."
+    " Added later: collision pairs under Adler-32, CRC-32, byte sums and digests truncated to 32 bits; late failures beyond keywords (unencodable text, nesting beyond the Python compiler's limits, thorough: a 2600-rung ladder); experiments named like evaluator attributes; copies taken at different moments of a history."
 )
 ASSUMPTIONS = [
     "model: an evaluator behaves like a fresh ExperimentEvaluator(last text it accepted); texts are valid / invalid "
